@@ -172,6 +172,16 @@ func main() {
 	otherDigest := digest.FromString("another artifact").String()
 	devs := []deviation{
 		{"digest", "envelope", func(s *script) { s.mutate = edit(func(m map[string]any) { ta(m)["digest"] = otherDigest }) }, true},
+		{"digest-empty", "envelope", func(s *script) { s.mutate = edit(func(m map[string]any) { ta(m)["digest"] = "" }) }, true},
+		{"digest-missing", "envelope", func(s *script) { s.mutate = edit(func(m map[string]any) { delete(ta(m), "digest") }) }, true},
+		{"digest-null", "envelope", func(s *script) { s.mutate = edit(func(m map[string]any) { ta(m)["digest"] = nil }) }, true},
+		{"digest-bare-hex", "envelope", func(s *script) {
+			s.mutate = edit(func(m map[string]any) { ta(m)["digest"] = strings.TrimPrefix(fmt.Sprint(ta(m)["digest"]), "sha256:") })
+		}, true},
+		{"digest-other-algorithm", "envelope", func(s *script) {
+			s.mutate = edit(func(m map[string]any) { ta(m)["digest"] = "sha512:" + strings.Repeat("ab", 64) })
+		}, true},
+		{"size-negative", "envelope", func(s *script) { s.mutate = edit(func(m map[string]any) { ta(m)["size"] = -1 }) }, true},
 		{"size", "envelope", func(s *script) { s.mutate = edit(func(m map[string]any) { ta(m)["size"] = 4242 }) }, true},
 		{"size-string", "envelope", func(s *script) { s.mutate = edit(func(m map[string]any) { ta(m)["size"] = "12" }) }, true},
 		{"mediaType", "envelope", func(s *script) { s.mutate = edit(func(m map[string]any) { ta(m)["mediaType"] = "x/y" }) }, true},
@@ -305,6 +315,21 @@ func main() {
 		var info *signature.SignerInfo
 		var serr error
 		var requested ocispec.Descriptor
+		// every second deviating case: the SAME PluginSigner first serves an honest request (deviations switched off), then
+		// the deviating one - what the signer learned from the first answer must not excuse the second
+		if len(c.devs) > 0 && ci%2 == 1 {
+			honest := *sc
+			honest.mutate, honest.cty, honest.echoFmt, honest.realFmt, honest.corrupt = nil, "", "", "", false
+			honest.describeKeyID, honest.describeSpec, honest.genKeyID, honest.chain, honest.corruptRaw = "", "", "", "", false
+			deviating := *sc
+			*sc = honest
+			if _, _, err := ps.Sign(context.Background(), desc, notation.SignerSignOptions{SignatureMediaType: c.format}); err != nil {
+				r.Violation(map[string]string{"kind": "honest-answer-refused", "mode": c.mode}, fmt.Sprintf("%s: the honest first call on a reused signer failed: %v", id, err), nil)
+			}
+			*sc = deviating
+			id += "|after-an-honest-call-on-the-same-signer"
+			r.Event("reused-signer-cases")
+		}
 		pv, stack := lib.Guard(func() {
 			opts := notation.SignerSignOptions{SignatureMediaType: c.format, ExpiryDuration: 24 * time.Hour}
 			if c.blob {
